@@ -15,7 +15,7 @@ Assumed contracts (every one is exercised natively by replay/c19_conformance.py;
   * `jnp.argpartition(x, kth)` (rank 1): a permutation `p` of [0, n) with inverse `q`; if no element of x is NaN:
     x[p[a]] <= x[p[kth]] <= x[p[b]] for a <= kth <= b.  (With NaNs present jax gives no usable order: a negated NaN is
     placed FIRST.)  kth outside [-n, n) raises.
-  * `jnp.argsort(x)` (rank 1): a permutation of [0, n) (NaN last, ascending otherwise).
+  * `jnp.argsort(x)` (rank 1): a permutation of [0, n) putting x in ascending order, NaNs (of either sign) last.
   * `jnp.argmin/argmax(x, axis)`: an index in [0, extent) of that axis.
   * `jnp.clip(x, lo, hi)`: NaN stays NaN, otherwise min(max(x, lo), hi).
   * indexing with a traced integer / integer array: negative indices wrap once, then the index is clamped into the axis.
@@ -1303,11 +1303,26 @@ def argsort(it, x):
     if x.rank != 1:
         raise Unsupported('argsort of a rank-%d array' % x.rank)
     n = x.shape[0]
+    if it.pure:
+        raise Unsupported('argsort inside a mapped function')
     p, q = permutation(it, n, 'argsort')
+    f, dt, nz = x.fn, x.dtype, zi(n)
+    # ascending, NaNs (of either sign) last
+    body = lambda a, b: z3.Implies(z3.And(a >= 0, a < b, b < nz),
+                                   z3.Or(_nan_el(dt, f(p(b))), z3.And(z3.Not(_nan_el(dt, f(p(a)))), _le_el(dt, f(p(a)), f(p(b))))))
+    c = conc(n)
+    if c is not None:
+        for a in range(c):
+            for b in range(a + 1, c):
+                fact(it, body(z3.IntVal(a), z3.IntVal(b)))
+    else:
+        a, b = z3.Int('a!%d' % next(_uid)), z3.Int('b!%d' % next(_uid))
+        fact(it, z3.ForAll([a, b], body(a, b), patterns=[z3.MultiPattern(p(a), p(b))]))
     r = JArr((n,), 'int', lambda t: p(t), kfn=lambda: NONNEG)
     r.ghost['perm'] = (p, q, n)
     r.ghost['inrange'] = n
     it.run.__dict__.setdefault('jx_argsorts', []).append((x, p, q, n))
+    it.run.__dict__.setdefault('jx_perms', []).append({'x': x, 'p': p, 'q': q, 'n': n, 'by': 'argsort'})
     return r
 
 
@@ -1340,6 +1355,7 @@ def argpartition(it, x, kth):
     r.ghost['perm'] = (p, q, n)
     r.ghost['inrange'] = n
     it.run.__dict__.setdefault('jx_argpartitions', []).append({'x': x, 'p': p, 'q': q, 'n': n, 'kth': k})
+    it.run.__dict__.setdefault('jx_perms', []).append({'x': x, 'p': p, 'q': q, 'n': n, 'by': 'argpartition'})
     return r
 
 
